@@ -27,7 +27,7 @@ PROFILES.update({
 
 # site-triggered fault enumeration: base programs, cap on points per base program, wall budget
 _ENUM = dict(quick=dict(bases=32, max_points=60, budget_s=40), thorough=dict(bases=4000, max_points=400, budget_s=600))
-for _p in ('C07', 'C10', 'C12'):
+for _p in ('C02', 'C07', 'C08', 'C10', 'C12'):
     PROFILES[_p]['enum'] = _ENUM
 
 import simcheck as _sc
